@@ -44,10 +44,11 @@ def gen_family(rng, n_roots=(1, 3), n_cond=(2, 8), n_rdm=(1, 4)):
     fzero = rng.chance(0.15)     # some exact zeros between different conditions (family-wide)
     fnote = rng.chance(0.3)      # an rdm descriptor that only some of the root objects carry
     fdtype = rng.pick(['float64', 'float64', 'float64', 'float64', 'int64', 'float32'])     # dtype of the stacks handed to the constructor
-    styp = rng.pick(['str', 'str', 'int', 'bigint', 'tiny'])     # object-level descriptor values incl. falsy ones ('' / 0), one type per family
+    styp = rng.pick(['str', 'str', 'int', 'bigint', 'tiny', 'vec'])     # object-level descriptor values incl. falsy ones ('' / 0), one type per family
     # (numbers that differ in the tenth digit -- acquisition ids, time stamps -- or far below one are different values)
     sess_vals = {'str': ['s1', 's2', '', 's7'], 'int': [0, 1, 2, 0], 'bigint': [2023100401, 2023100402, 2023100403, 2023100401],
-                 'tiny': [1e-9, 2e-9, 0.0, 1e-9]}[styp]
+                 'tiny': [1e-9, 2e-9, 0.0, 1e-9],
+                 'vec': [[1.0, 2.5], [1.0, 3.5], [0.0], [1.0, 2.5]]}[styp]        # a parameter vector / voxel size per object
     wgt = rng.chance(0.4)      # a float64 ndarray rdm descriptor usable as weights      # one label type per descriptor across the family (mixed-type columns are coerced by numpy)
     for _ in range(rng.randint(*n_roots)):
         nr = rng.randint(*n_rdm)
@@ -576,7 +577,8 @@ class RdmsOps:
                 # object-level descriptors that differ between the partials are demoted to rdm_descriptors
                 od = dict(part.descriptors)
                 v0 = od.get('session', 's1')
-                od['session'] = (['', 's1', 's9'] if isinstance(v0, str) else [0.0, 3e-9, 1e-9] if isinstance(v0, float)
+                od['session'] = ([[9.0], list(v0), [1.0, 2.5, 3.0]] if isinstance(v0, (list, np.ndarray)) else
+                                 ['', 's1', 's9'] if isinstance(v0, str) else [0.0, 3e-9, 1e-9] if isinstance(v0, float)
                                  else [v0, v0 + 1, v0 + 2] if abs(v0) > 1000 else [0, 4, 9])[(o['a'][1] + k) % 3]
                 part.descriptors = od
             parts.append(part)
